@@ -1273,6 +1273,17 @@ func (ev *Eval) callExpr(c *ECall) (EVal, error) {
 			return ival("(p_obj (i_pl " + t[0] + "))"), nil
 		}
 		return EVal{}, fmt.Errorf("obj() of %s", v.T)
+	case "boxstr":
+		// boxstr(x): the string an interface value x holds (meaningful when x's dynamic type is a string type)
+		a, err := arg(0)
+		if err != nil {
+			return EVal{}, err
+		}
+		if _, isI := a.T.Underlying().(*types.Interface); !isI {
+			return EVal{}, fmt.Errorf("boxstr() of %s: not an interface value", a.T)
+		}
+		ev.vc.declareRaw("box_str", "(declare-fun box_str (Iface) Str)")
+		return EVal{T: types.Typ[types.String], Terms: []string{"(box_str " + ev.rv(a)[0] + ")"}}, nil
 	case "payload":
 		// the pointer carried by an interface value
 		a, err := arg(0)
